@@ -485,7 +485,13 @@ class Main(Part):
                     if eo is not None:
                         ce = hexf(eo[3])
                         if ce > 0:
-                            if float(sh[eff].W) / ce > float(max(sh[d].fld, src.fld)):
+                            # theta of the first replayed item, in the code's operation order
+                            avg = float(sh[eff].W) / ce
+                            newmax = float(max(sh[d].fld, src.fld))
+                            tgt = sr if eff == d else d
+                            kk = min(last[d][0] if d in last else sh[d].k, eo[0] if eff == sr else last.get(sr, (src.k,))[0])
+                            nr = min(1.0 / newmax, kk / (float(sh[tgt].W) + avg))
+                            if nr * avg > 1.0:
                                 sh[d].taints.add("theta-above-one")
                             if 0 < ce - math.floor(ce) < 1e-9:
                                 sh[d].taints.add("vanishing-partial")
